@@ -133,6 +133,16 @@ theorem running_node_matches_its_log_partial (id : Nat) (acts : List Act) (hacts
       subst h1; subst h2; subst h3; rfl
     rw [← this]; exact hb
 
+/-- **Corollary: no double vote across restarts.** Whatever the history — any handler calls, any
+    number of crashes, each at any micro step (equivalently, by `byte_crash_refines_record_crash`, at
+    any byte of the record being written) — the node never announces votes for two different
+    candidates in one term. -/
+theorem no_double_vote_across_restarts_partial (id : Nat) (acts : List Act) (hacts : ∀ a ∈ acts, NoSnapAct a)
+    (t c1 c2 : Nat) (h1 : (t, c1) ∈ (exec (initSys id) acts).ghost.votes)
+    (h2 : (t, c2) ∈ (exec (initSys id) acts).ghost.votes) : c1 = c2 := by
+  have hf := votesFn_exec (initSys id) acts (inv_init id) (by intro v hv; simp [initSys] at hv) hacts
+  exact hf (t, c1) h1 (t, c2) h2 rfl
+
 /-- Full statement including `install_snapshot` events: kept as a definition, NOT proved — the code
     replaces the in-memory log by the snapshot's entries without logging them (raft.rs
     `install_snapshot_entries`), so entries acknowledged afterwards on top of the snapshot are not
@@ -187,6 +197,9 @@ example : ∀ a ∈ demoActs, NoSnapAct a := by
   simp only [demoActs, List.mem_cons, List.mem_nil_iff, or_false] at ha
   rcases ha with rfl | rfl | rfl | rfl | rfl | rfl | rfl | rfl <;> simp [NoSnapAct, NoSnap]
 example : (exec (initSys 0) demoActs).ghost.votes = [(3, 0), (1, 2)] := by decide
+/-- the vote of term 1 really is re-requested by another candidate after the restart and refused -/
+example : (step (exec (initSys 0) [.ev (.requestVote 1 2 0 0), .crash (.requestVote 1 2 0 0) 0]).node
+    (.requestVote 1 3 5 5)).reply = .vote 1 false := by decide
 example : (exec (initSys 0) demoActs).ghost.acked.length = 5 := by decide
 example : (exec (initSys 0) demoActs).node.term = 9 ∧ (exec (initSys 0) demoActs).node.votedFor = none := by decide
 example : (exec (initSys 0) demoActs).node.log = [⟨1, 1, 10⟩, ⟨2, 2, 20⟩, ⟨3, 2, 21⟩, ⟨4, 3, 30⟩] := by decide
